@@ -237,6 +237,15 @@ pub fn real_peek(cpu: &Cpu, addr: u32) -> Option<u8> {
     }
 }
 pub fn real_poke(cpu: &mut Cpu, addr: u32, v: u8) {
+    // Through the emulator's own write path wherever that has no side effect the properties speak
+    // of (memory, vector area, plain I/O register locations): an implementation may keep caches -
+    // decoded instructions, per-area cost tables - that only its write path keeps coherent, and a
+    // monitor that wrote behind its back would then see stale behaviour that no guest could cause.
+    // Port DDR/DR and the timer block are written directly (their write path announces, latches,
+    // reconfigures - the checks that want that call Bus::write themselves).
+    if !crate::refmodel::mem::is_special_io(addr) && locate(addr).is_some() && cpu.bus.write(addr, v).is_ok() {
+        return;
+    }
     let slot = match locate(addr) {
         Some((0, o)) => cpu.bus.exception_handling_vector.get_mut(o),
         Some((1, o)) => cpu.bus.dram.get_mut(o),
